@@ -395,7 +395,7 @@ def run_prim(desc, ctx):
 
 
 SUBS = [
-    Sub("kruskal", run_kruskal, strategy=lambda tier: graphs(tier, salt=True), quick=1500, thorough=12000, workers_quick=4),
-    Sub("prim", run_prim, strategy=lambda tier: graphs(tier), quick=1500, thorough=12000, workers_quick=4),
+    Sub("kruskal", run_kruskal, strategy=lambda tier: graphs(tier, salt=True), quick=1500, thorough=8000, workers_quick=4),
+    Sub("prim", run_prim, strategy=lambda tier: graphs(tier), quick=1500, thorough=8000, workers_quick=4),
     Sub("small-exhaustive", run_prim, enumerate=small_graphs, workers_quick=4),
 ]
